@@ -12,7 +12,7 @@ class Contract(object):
                  modifies=(), invariants=None, inline=False, on_raise=None, raises_when=None,
                  may_raise_app=True, ghost=None, self_cls=None, trusted=False, external=False,
                  note=None, props=(), generator=False, pure=True, loop_bounds=None, carries=(),
-                 ensures_fn=None, defaults=None, post_names=None, variants=None, definitions=None, unfold_depth=1, comprehensions=None, abstract_nonlinear=False, bounded_lists=None, instantiate_int_foralls=False, names_result=None):
+                 ensures_fn=None, defaults=None, post_names=None, variants=None, definitions=None, unfold_depth=1, comprehensions=None, abstract_nonlinear=False, bounded_lists=None, instantiate_int_foralls=False, names_result=None, robust_when=None):
         self.file, self.qualname = file, qualname
         self.params = OrderedDict(params or [])
         self.requires = requires or (lambda v: [])
@@ -35,6 +35,8 @@ class Contract(object):
         self.unfold_depth = unfold_depth
         self.abstract_nonlinear = abstract_nonlinear
         self.instantiate_int_foralls = instantiate_int_foralls
+        self.robust_bound = None
+        self.robust_when = robust_when     # lambda v: [hypotheses] under which int() of a computed float must not depend on last-bit rounding
         self.names_result = names_result   # lambda v, res: [equalities naming the result of a pure deterministic function by a spec function] — assumed at call sites only (definitional)
         self.bounded_lists = bounded_lists or {}   # loop ordinal -> {list variable: (length expression lambda v, bound)}: case split on the length
         self.comprehensions = comprehensions or {}   # ordinal -> (SpecSeq, lambda v: [params])  list comprehension over a symbolic list = that spec sequence
@@ -42,8 +44,9 @@ class Contract(object):
 
 class ClassDecl(object):
     """field table of a repository class: attribute name -> type descriptor"""
-    def __init__(self, file, name, fields, bases=(), invariant=None, pyname=None):
+    def __init__(self, file, name, fields, bases=(), invariant=None, pyname=None, external=False):
         self.file, self.name, self.fields, self.bases = file, name, dict(fields), tuple(bases)
+        self.external = external
         self.pyname = pyname or name       # several sidecar views of one Python class may exist (e.g. EAMPotential with a dict of densities)
         self.invariant = invariant      # lambda o(z3 term): [z3 Bool] — established by __init__, fields never reassigned
 
